@@ -216,6 +216,21 @@ def step (s : St) (w : List String) : St × Out :=
       let mline := specLine 1 none [] [] ++
         s!" ## order=[] {liveStr m.heap} mem={if s.nomem then "-" else toString m.heap.blocks}"
       (s, { model := mline, spec := if s.w.isSome then specLine 1 none [] [] else "*", cov := ["setd"] })
+  | ["copyd", i] =>
+    -- json_object_deep_copy(src, &dst, NULL) of a tree whose root carries user data: the library refuses (it cannot copy
+    -- user data it does not know); the refusal has no ownership effect at all - no callback, nothing freed, nothing made
+    match s.m, i.toNat? with
+    | some m, some id =>
+      match m.heap.get? id with
+      | none => (s, { model := "harness: dead handle" })
+      | some n =>
+        if n.ud.isNone then (s, { model := "harness: bad operand" })
+        else
+          let mline := specLine (-1) none [] [] ++
+            s!" ## order=[] {liveStr m.heap} mem={if s.nomem then "-" else toString m.heap.blocks}"
+          (s, { model := mline, spec := if s.w.isSome then specLine (-1) none [] [] else "*", cov := ["copy-default-refused"] })
+    | none, _ => (s, { model := "model-stopped-earlier" })
+    | _, none => (s, { model := "bad-op" })
   | _ =>
   match parseOp w with
   | none => (s, { model := "bad-op" })
